@@ -522,6 +522,15 @@ def discharge(ob: Obligation, st: State, timeout_ms: int, use_cvc5: bool, both: 
                         ob.detail = "candidate model (quantified assumptions dropped): " + str(m)
                     except Exception:
                         ob.model = None
+        if st.cfg.get("ground") and ob.model is None:
+            # bounded mode, still no model: second opinion of the z3 4.8.12 binary, whose scalar choices guide the library solver
+            m5 = smt.cli_guided_model(assertions, min(timeout_ms, 20000))
+            if m5 is not None:
+                ob.status, ob.backend, ob.detail = "failed", "z3 (model search guided by /usr/bin/z3 4.8.12)", ""
+                try:
+                    ob.model = decode_model(m5, st)
+                except Exception as e:
+                    ob.model = {"error": f"model decoding failed: {e}"}
         # quantifier instantiation is sensitive to scheduling noise: before giving up, two more attempts with other
         # solver seeds and twice the time (a verdict must not flip because the machine is busy)
         for attempt in (() if st.cfg.get("ground") else (1, 2)):
